@@ -312,6 +312,15 @@ class C02(Property):
             {"schema": {"t": "dict", "name": None, "opt": False, "mode": "dense", "fields": [
                 {"t": "array", "name": "", "opt": False, "prune": True, "multi": False, "member": S("(x)")}]},
              "kinds": kinds, "sep": "a", "pairs": [["(x)", "x"]]},           # KF-C02-c witness: a field named ''
+            # Lists WITHOUT an explicit ceiling ("max": null -> `resolve_ceilings`: the class default of
+            # maximum_set_flat_members applies in the real code, the documented 1024 in model and oracle):
+            # 1030 consecutive indexes, kept / pruned; sparse indexes on both sides of the default ceiling
+            mk(fl.resolve_ceilings(dict(L, prune=False, max=None)), [["l_%d_s" % i, "v%d" % i] for i in range(1030)]),
+            mk(fl.resolve_ceilings(dict(L, max=None)), [["l_%d_s" % i, "v"] for i in range(1030)]),
+            mk(fl.resolve_ceilings(dict(L, prune=False, max=None)),
+               [["l_%d_s" % i, "v"] for i in (0, 5, 1022, 1023, 1024, 1025, 2047, 2048, 4096)]),
+            mk(fl.resolve_ceilings(dict(L, max=None)),
+               [["l_%d_s" % i, "v"] for i in list(range(0, 2060, 2)) + [1023, 1025]]),
         ]
 
     def generate(self, rng, n, tier):
@@ -323,6 +332,11 @@ class C02(Property):
                 if schema["t"] in ("leaf", "joined") and rng.random() < 0.85:
                     kinds = []
                     schema = fl.gen_schema(rng, sep, rng.choice([2, 3, 3, 4]), kinds)
+            # a further share of the Lists that say the documented ceiling carry no explicit ceiling at all (the
+            # class default applies in the real code); flatlib.gen_schema already leaves 1 in 7 that way
+            for x in fl.walk_schema(schema):
+                if x["t"] == "list" and x["max"] == fl.DOC_LIST_CEILING and not x.get("max_default") and rng.random() < 0.5:
+                    x["max_default"] = True
             yield {"schema": schema, "kinds": kinds, "sep": sep, "pairs": gen_pairs(rng, schema, sep)}
 
     def run_impl(self, case):
@@ -453,6 +467,10 @@ class C02(Property):
         for n, mx in obs.get("_lens", []):
             if n == mx and mx < 1024:
                 t.append("list-at-ceiling")
+        if any(x["t"] == "list" and x.get("max_default") for x in fl.walk_schema(case["schema"])):
+            t.append("list-default-ceiling")
+            if any(n >= fl.DOC_LIST_CEILING for n, _ in obs.get("_lens", [])):
+                t.append("list-at-default-ceiling")
         if any(len(k) > 1000 for k, _ in case["pairs"]):
             t.append("huge-digit-run")
         if any(any(ord(c) > 127 and unicodedata.category(c) == "Nd" for c in k) for k, _ in case["pairs"]):
